@@ -16,7 +16,7 @@ def InSeg (S : List Row) (k : Nat) (c : LCell) : Prop :=
   getOrientation S c k = c.torient
 
 /-- the input of the Abacus pass in the idempotence argument -/
-structure CellsOK (S : List Row) (H : Int) (cells : List LCell) : Prop where
+structure IdemOK (S : List Row) (H : Int) (cells : List LCell) : Prop where
   sorted : SortedBy rowLt S
   heights : ∀ r ∈ S, r.rect.height = H
   disjoint : ∀ k1 k2, k1 < S.length → k2 < S.length → k1 ≠ k2 →
@@ -86,7 +86,7 @@ theorem loopInv_init (R : List Row) (cells : List LCell) : LoopInv (sortRows R) 
   · intro k _; rw [hrc k]; exact List.Pairwise.nil
   · intro j hj; omega
 
-theorem loopInv_step (S : List Row) (H : Int) (cells : List LCell) (ok : CellsOK S H cells) (i : Nat)
+theorem loopInv_step (S : List Row) (H : Int) (cells : List LCell) (ok : IdemOK S H cells) (i : Nat)
     (a : Abacus) (inv : LoopInv S cells i a) (hi : i < cells.length) :
     (abacusPlace a i (cellAt cells i)).2 = true ∧ LoopInv S cells (i + 1) (abacusPlace a i (cellAt cells i)).1 := by
   have hrows := inv.rows
@@ -215,7 +215,7 @@ theorem drop_cellAt (cells : List LCell) (i : Nat) (hi : i < cells.length) :
   rw [List.drop_eq_getElem_cons hi]
   simp [cellAt, List.getD_eq_getElem?_getD, List.getElem?_eq_getElem hi]
 
-theorem loopInv_run (S : List Row) (H : Int) (cells : List LCell) (ok : CellsOK S H cells) :
+theorem loopInv_run (S : List Row) (H : Int) (cells : List LCell) (ok : IdemOK S H cells) :
     ∀ (m i : Nat) (a : Abacus), i + m = cells.length → LoopInv S cells i a →
       LoopInv S cells cells.length (abacusLoop a i (cells.drop i)).1 ∧
       ∀ f ∈ (abacusLoop a i (cells.drop i)).2, f = true
@@ -237,7 +237,7 @@ theorem loopInv_run (S : List Row) (H : Int) (cells : List LCell) (ok : CellsOK 
 
 /-! ### `getPlacement` written back, and `check()` -/
 
-theorem posAt_set (pos : List Pos) (j m : Nat) (v : Pos) (hm : m < pos.length) :
+theorem posAt_set_lt (pos : List Pos) (j m : Nat) (v : Pos) (hm : m < pos.length) :
     posAt (pos.set j v) m = if j = m then v else posAt pos m := by
   simp only [posAt, List.getD_eq_getElem?_getD, List.getElem?_set]
   by_cases h : j = m
@@ -270,7 +270,7 @@ theorem writeRow_final (S : List Row) (cells : List LCell) (row : Nat) :
       = finalPos (cellAt cells j) at hvj
     rw [hvj]
     apply writeRow_final S cells row rc _ (fun j' hj' => hv j' (by simp [hj'])) m (by simpa using hm)
-    rw [posAt_set _ _ _ _ hm]
+    rw [posAt_set_lt _ _ _ _ hm]
     by_cases hjm : j = m
     · subst hjm; left; simp
     · rw [if_neg hjm]
@@ -344,7 +344,7 @@ theorem posAt_map (cells : List LCell) (f : LCell → Pos) (j : Nat) (hj : j < c
 
 /-- **The Abacus pass on an already legal input**: every cell is reported placed exactly where it
 was, with the orientation it had, and `check()` passes. -/
-theorem abacusRun_fixed (R : List Row) (H : Int) (cells : List LCell) (ok : CellsOK (sortRows R) H cells) :
+theorem abacusRun_fixed (R : List Row) (H : Int) (cells : List LCell) (ok : IdemOK (sortRows R) H cells) :
     abacusRun R cells = .ok (cells.map finalPos) := by
   obtain ⟨inv, _⟩ := loopInv_run (sortRows R) H cells ok cells.length 0 (Abacus.init R) (by omega)
     (loopInv_init R cells)
@@ -415,7 +415,7 @@ theorem abacusRun_fixed (R : List Row) (H : Int) (cells : List LCell) (ok : Cell
       intro j hj
       rw [hpos k hk j (by rw [erc]; exact hj)]
       have := (inv.mem k hk j (by rw [erc]; exact hj)).2
-      rw [er] at this
+      simp only [InSeg, er] at this
       simp only [finalPos]
       exact ⟨this.2.1, this.2.2.1⟩
     have c3 : a.rowCells.all (rowOrderOk cells (cells.map finalPos)) = true := by
